@@ -275,6 +275,37 @@ theorem fold_filter (f : String → Grid Tok → Grid Tok) (l0 : Laser) (es : Li
       simp [hnd'.1]
     · simp [hne]
 
+/-- the table of filtered elements of `filterSpec`, looked up -/
+theorem lookup_done {β} (xs : List String) (p : String → Bool) (F : String → β) (n : String) :
+    ((xs.filter p).map fun m => (m, F m)).lookup n = if n ∈ xs ∧ p n = true then some (F n) else none := by
+  induction xs with
+  | nil => simp
+  | cons x t ih =>
+    by_cases hp : p x = true
+    · simp only [List.filter_cons, hp, if_true, List.map_cons, List.lookup_cons, List.mem_cons]
+      by_cases hn : n = x
+      · subst hn; simp [hp]
+      · have : (n == x) = false := by simpa using hn
+        rw [this, ih]; simp [hn]
+    · simp only [List.filter_cons, hp, Bool.false_eq_true, if_false, List.mem_cons]
+      rw [ih]
+      by_cases hn : n = x
+      · subst hn; simp [hp]
+      · simp [hn]
+
+/-- the pixel function of `filterSpec`, read off -/
+theorem filterSpec_get (f : String → Grid Tok → Grid Tok) (sel : Option (List String)) (l : Laser)
+    (i j : Nat) (n : String) :
+    (filterSpec f sel l).data.get i j n =
+      if selected sel l n = true then (f n (l.field n)).get i j else l.data.get i j n := by
+  simp only [filterSpec, lookup_done]
+  by_cases hs : selected sel l n = true
+  · have hm : n ∈ l.elements := by
+      simp only [selected, Bool.and_eq_true, List.contains_iff_mem] at hs
+      exact hs.1
+    simp [hs, hm]
+  · simp [hs]
+
 /-! ## where files go -/
 
 theorem save_placed (l : Laser) (p : Path) (fs : List File) (h : save l p = .ok fs) :
@@ -353,13 +384,13 @@ theorem ContentEq.refl (c : Content) : ContentEq c c := by
   cases c with
   | npz l => exact LaserEq.refl l
   | csv g => exact GridEq.refl g
-  | vtk => trivial
+  | vtk l => exact LaserEq.refl l
 
 theorem ContentEq.symm {c c' : Content} (h : ContentEq c c') : ContentEq c' c := by
   cases c <;> cases c' <;> first | exact h.elim | skip
   · exact LaserEq.symm h
   · exact GridEq.symm h
-  · trivial
+  · exact LaserEq.symm h
 
 theorem ContentEq.trans {c c' c'' : Content} (h : ContentEq c c') (h' : ContentEq c' c'') :
     ContentEq c c'' := by
@@ -367,7 +398,7 @@ theorem ContentEq.trans {c c' c'' : Content} (h : ContentEq c c') (h' : ContentE
   all_goals cases c'' <;> first | exact h'.elim | skip
   · exact LaserEq.trans h h'
   · exact GridEq.trans h h'
-  · trivial
+  · exact LaserEq.trans h h'
 
 theorem FileEq.refl (f : File) : FileEq f f := ⟨rfl, ContentEq.refl _⟩
 theorem FileEq.symm {f f' : File} (h : FileEq f f') : FileEq f' f := ⟨h.1.symm, h.2.symm⟩
@@ -445,7 +476,7 @@ theorem specFiles_congr (format : String) {l l' : Laser} (p : Path) (h : LaserEq
     exact FilesEq.map _ _ _ fun n _ => ⟨rfl, field_congr h n⟩
   · split
     · exact ⟨⟨rfl, h⟩, trivial⟩
-    · exact FilesEq.refl _
+    · exact ⟨⟨rfl, h⟩, trivial⟩
 
 /-! ## formats and saving -/
 
@@ -581,5 +612,97 @@ theorem FilesEq.nil_right {fs : List File} (h : FilesEq fs []) : fs = [] := by
   cases fs with
   | nil => rfl
   | cons f t => exact h.elim
+
+/-! ## reading a run input by input -/
+
+theorem parse_ok_facts (a : Args) (outs : List Path) (hp : parse a = .ok outs) :
+    a.inputs ≠ [] ∧ a.format ∈ validFormats ∧
+      deriveOutputs a.cmd.isStack (a.inputs.map (·.path)) a.format a.output a.isDir = .ok outs := by
+  rw [parse_unfold] at hp
+  split at hp
+  · cases hp
+  · rename_i h1
+    split at hp
+    · cases hp
+    · split at hp
+      · cases hp
+      · rename_i h3
+        refine ⟨by intro e; simp [e] at h1, by simpa using h3, ?_⟩
+        cases hd : deriveOutputs a.cmd.isStack (a.inputs.map (·.path)) a.format a.output a.isDir with
+        | error e => simp [hd] at hp
+        | ok o =>
+          simp only [hd] at hp
+          cases hr : a.cmd.requested with
+          | none => simp only [hr] at hp; cases hp; rfl
+          | some els =>
+            simp only [hr] at hp
+            split at hp
+            · cases hp
+            · cases hp; rfl
+
+theorem FilesEq.exists_left {fs gs : List File} (h : FilesEq fs gs) (g : File) (hg : g ∈ gs) :
+    ∃ f ∈ fs, FileEq f g := by
+  induction fs generalizing gs with
+  | nil => cases gs with
+    | nil => cases hg
+    | cons g' t => exact h.elim
+  | cons f t ih => cases gs with
+    | nil => exact h.elim
+    | cons g' t' =>
+      rcases List.mem_cons.mp hg with rfl | hg'
+      · exact ⟨f, by simp, h.1⟩
+      · obtain ⟨f', hf', he⟩ := ih h.2 hg'
+        exact ⟨f', by simp [hf'], he⟩
+
+theorem mem_enum_zip {α β} (l : List α) (m : List β) (k : Nat) (h1 : k < l.length) (h2 : k < m.length) :
+    (k, l[k], m[k]) ∈ enum (l.zip m) := by
+  unfold enum
+  have hz : k < (l.zip m).length := by simp [List.length_zip]; omega
+  have : (k, (l.zip m)[k]) ∈ (List.range (l.zip m).length).zip (l.zip m) := by
+    rw [List.mem_iff_getElem]
+    refine ⟨k, by simp [List.length_zip]; omega, ?_⟩
+    simp
+  simpa using this
+
+theorem FileEq.npz {f : File} {p : Path} {l : Laser} (h : FileEq f ⟨p, .npz l⟩) :
+    f.path = p ∧ ∃ m, f.content = .npz m ∧ LaserEq m l := by
+  obtain ⟨hp, hc⟩ := h
+  refine ⟨hp, ?_⟩
+  cases hf : f.content with
+  | npz m => rw [hf] at hc; exact ⟨m, rfl, hc⟩
+  | csv g => rw [hf] at hc; exact hc.elim
+  | vtk m => rw [hf] at hc; exact hc.elim
+
+theorem FileEq.vtk {f : File} {p : Path} {l : Laser} (h : FileEq f ⟨p, .vtk l⟩) :
+    f.path = p ∧ ∃ m, f.content = .vtk m ∧ LaserEq m l := by
+  obtain ⟨hp, hc⟩ := h
+  refine ⟨hp, ?_⟩
+  cases hf : f.content with
+  | npz m => rw [hf] at hc; exact hc.elim
+  | csv g => rw [hf] at hc; exact hc.elim
+  | vtk m => rw [hf] at hc; exact ⟨m, rfl, hc⟩
+
+theorem FileEq.csv {f : File} {p : Path} {g : Grid Tok} (h : FileEq f ⟨p, .csv g⟩) :
+    f.path = p ∧ ∃ g', f.content = .csv g' ∧ GridEq g' g := by
+  obtain ⟨hp, hc⟩ := h
+  refine ⟨hp, ?_⟩
+  cases hf : f.content with
+  | npz m => rw [hf] at hc; exact hc.elim
+  | csv g' => rw [hf] at hc; exact ⟨g', rfl, hc⟩
+  | vtk m => rw [hf] at hc; exact hc.elim
+
+theorem written_of_specFiles (fs : List File) (format : String) (l : Laser) (out : Path)
+    (h : ∀ g ∈ specFiles format l out, ∃ f ∈ fs, FileEq f g) : Written fs format l out := by
+  refine ⟨?_, ?_, ?_⟩
+  · rintro rfl
+    obtain ⟨f, hf, he⟩ := h ⟨out, .npz l⟩ (by simp [specFiles])
+    exact ⟨f, hf, he.npz⟩
+  · rintro rfl
+    obtain ⟨f, hf, he⟩ := h ⟨out, .vtk l⟩ (by simp [specFiles])
+    exact ⟨f, hf, he.vtk⟩
+  · rintro rfl n hn
+    obtain ⟨f, hf, he⟩ := h ⟨{ out with stem := out.stem ++ "_" ++ n }, .csv (l.field n)⟩
+      (by simp only [specFiles, if_true]; exact List.mem_map.mpr ⟨n, hn, rfl⟩)
+    exact ⟨f, hf, he.csv⟩
 
 end Pew.Cli
